@@ -57,6 +57,15 @@ def export_to_geff(
     # update the graph to split the position into separate attrs, if they are currently
     # together in a list
     graph, axis_names = split_position_attr(tracks)
+    # an attribute whose value is None means "no value" (e.g. restored by undo): drop it from
+    # the exported copy, geff records absent attributes as missing but cannot store None
+    if any(v is None for _, a in graph.nodes(data=True) for v in a.values()) or any(
+        v is None for _, _, a in graph.edges(data=True) for v in a.values()
+    ):
+        graph = graph.copy()
+        for *_, attrs in [*graph.nodes(data=True), *graph.edges(data=True)]:
+            for key in [k for k, v in attrs.items() if v is None]:
+                del attrs[key]
     if axis_names is None:
         axis_names = []
     axis_names.insert(0, tracks.features.time_key)
